@@ -118,7 +118,7 @@ func c02Check(c *sim.Ctx, w *world.World) {
 		if !t.HasRows {
 			continue
 		}
-		if acc, _ := accepted(fresh, t.Name); !acc {
+		if !acceptedStrict(c, fresh, t.Name) {
 			c.Inc("unaccepted_definitions", 1)
 			continue
 		}
@@ -337,7 +337,7 @@ func c03Check(c *sim.Ctx, w *world.World) {
 		if !t.HasRows {
 			continue
 		}
-		if acc, _ := accepted(fresh, t.Name); !acc {
+		if !acceptedStrict(c, fresh, t.Name) {
 			continue
 		}
 		for _, ix := range t.Indexes {
@@ -418,7 +418,7 @@ func c04Check(c *sim.Ctx, w *world.World) {
 		if !t.HasRows || t.WithoutRowid || t.Rowids == nil {
 			continue
 		}
-		if acc, _ := accepted(fresh, t.Name); !acc {
+		if !acceptedStrict(c, fresh, t.Name) {
 			continue
 		}
 		present := map[int64]int{}
